@@ -140,3 +140,68 @@ func VH16a_prefix() {
 		}
 	}
 }
+
+// VH01i_boundary: one message whose header length or body length sits on a boundary that the code itself names
+// (c-1, c, c+1 for every integer constant c <= maxlen found in the transport and message code - recomputed from the
+// current source, so a new inline-buffer size or size threshold puts its own neighbours on the list), followed by a
+// one-byte sentinel message, through conn.Send / connipc.Send and back through Recv. All bytes are solver variables.
+// The wire image must equal the independent encoding, both messages must come back whole, nothing may be left over.
+func VH01i_boundary() {
+	const scope = "go.nanomsg.org/mangos/v3/transport,go.nanomsg.org/mangos/v3"
+	max := verif.Param("maxlen", 72)
+	n := verif.BoundaryCount(scope, max)
+	big := verif.Boundary(scope, max, verif.Choice("boundary", n))
+	other := []int{0, 3}[verif.Choice("other", 2)]
+	hl, bl := big, other
+	if verif.Choice("which", 2) == 1 {
+		hl, bl = other, big
+	}
+	ipc := verif.Choice("ipc", 2) == 1
+	w := &vconn{}
+	var tx Pipe
+	if ipc {
+		tx = &connipc{conn: conn{c: w, open: true}}
+	} else {
+		tx = &conn{c: w, open: true}
+	}
+	lens := [][2]int{{hl, bl}, {0, 1}}
+	var sent []vmsg
+	var ref []byte
+	for _, l := range lens {
+		h := verif.Bytes("h", l[0])
+		b := verif.Bytes("b", l[1])
+		m := mangos.NewMessage(l[1])
+		m.Header = append(m.Header, h...)
+		m.Body = append(m.Body, b...)
+		sent = append(sent, vmsg{h, b})
+		verif.Assert(tx.Send(m) == nil, "C01/boundary/send-ok")
+		if ipc {
+			ref = append(ref, 1)
+		}
+		ref = append(ref, be64(uint64(l[0]+l[1]))...)
+		ref = append(ref, h...)
+		ref = append(ref, b...)
+	}
+	verif.Assert(len(w.out) == len(ref), "C15/boundary/wire-length")
+	verif.Assert(verif.BytesEq(w.out, ref), "C15/boundary/mangos-writes-reference-encoding")
+	verif.Reach("boundary-encoded")
+	r := &vconn{in: ref}
+	var rx Pipe
+	if ipc {
+		rx = &connipc{conn: conn{c: r, open: true}}
+	} else {
+		rx = &conn{c: r, open: true}
+	}
+	for i := range lens {
+		got, err := rx.Recv()
+		verif.Assert(err == nil, "C01/boundary/recv-ok")
+		if err != nil {
+			return
+		}
+		want := append(append([]byte{}, sent[i].h...), sent[i].b...)
+		verif.Assert(len(got.Header) == 0 && len(got.Body) == len(want), "C01/boundary/length")
+		verif.Assert(verif.BytesEq(got.Body, want), "C01/boundary/bytes-identical")
+	}
+	verif.Assert(r.rpos == len(r.in), "C01/boundary/consumed-exactly")
+	verif.Reach("boundary-decoded")
+}
